@@ -204,3 +204,34 @@ Theorem C12_source_marker_impls :
   List.length gen_impl_methods = 72%nat.
 Proof. repeat split. Qed.
 
+
+(* ---- T2: the bounds of the trait impls (coq/gen/GenSigs.v gen_impl_bounds) ---- *)
+(* the array is Send / Sync / Copy only with the element bound; these five are the only impls of Send, Sync
+   or Copy in the crate (the iterator gets its auto traits from its fields and is Clone for T: Clone) *)
+Theorem C12_source_marker_bounds :
+  bounds_of "unsafe Send for GenericArray<T,N>" = Some ["N:ArrayLength"; "T:Send"] /\
+  bounds_of "unsafe Sync for GenericArray<T,N>" = Some ["N:ArrayLength"; "T:Sync"] /\
+  bounds_of "Copy for GenericArray<T,N>" = Some ["N::ArrayType<T>:Copy"; "N:ArrayLength"; "T:Copy"] /\
+  bounds_of "Copy for GenericArrayImplEven<T,U>" = Some ["T:Copy"; "U:Copy"] /\
+  bounds_of "Copy for GenericArrayImplOdd<T,U>" = Some ["T:Copy"; "U:Copy"] /\
+  bounds_of "Clone for GenericArrayIter<T,N>" = Some ["N:ArrayLength"; "T:Clone"] /\
+  filter (fun r => (mentions "Send for" (snd (fst r)) || mentions "Sync for" (snd (fst r)) || mentions "Copy for" (snd (fst r)))%bool)
+         gen_impl_bounds
+  = [("lib.rs", "Copy for GenericArrayImplEven<T,U>", ["T:Copy"; "U:Copy"]);
+     ("lib.rs", "Copy for GenericArrayImplOdd<T,U>", ["T:Copy"; "U:Copy"]);
+     ("lib.rs", "unsafe Send for GenericArray<T,N>", ["N:ArrayLength"; "T:Send"]);
+     ("lib.rs", "unsafe Sync for GenericArray<T,N>", ["N:ArrayLength"; "T:Sync"]);
+     ("impls.rs", "Copy for GenericArray<T,N>", ["N::ArrayType<T>:Copy"; "N:ArrayLength"; "T:Copy"])].
+Proof. exact tie_marker_bounds. Qed.
+
+(* comparing relates ONE length: the four comparison impls are for GenericArray<T,N> against itself, each
+   for exactly the element types that have the trait (a narrower impl lets method calls fall through Deref
+   to the slice impl, which accepts any two lengths) *)
+Theorem C12_source_cmp_bounds :
+  Forall (fun tr => bounds_of (tr ++ " for GenericArray<T,N>") = Some ["N:ArrayLength"; ("T:" ++ tr)%string])
+         structural_traits /\
+  map (fun r => snd (fst r))
+      (filter (fun r => (mentions "PartialEq" (snd (fst r)) || mentions "PartialOrd" (snd (fst r))
+                         || mentions "Ord for" (snd (fst r)) || mentions "Eq for" (snd (fst r)))%bool) gen_impl_bounds)
+  = ["PartialEq for GenericArray<T,N>"; "Eq for GenericArray<T,N>"; "PartialOrd for GenericArray<T,N>"; "Ord for GenericArray<T,N>"].
+Proof. exact (conj tie_structural_bounds tie_cmp_headers). Qed.
